@@ -227,6 +227,26 @@ func init() {
 	})
 }
 
+var seamsCanon = Seams{MapOrder: "all"}
+
+func init() {
+	cb := func(cfg string, q, t int) Batch {
+		b := s4b("canon", cfg, q, t)
+		b.Seams = seamsCanon
+		b.Stub = []string{"Go map iteration order at every range-over-map site of the v2 module (46 sites: writers, query builder, batch key sets, fnv1a map hashing, header copying, router tables), chosen by the simulator", "TCP (requests are handed to the handler in-process)", "resource implementations (mocks)"}
+		return b
+	}
+	reg(&PropSpec{
+		ID: "C09",
+		Batches: []Batch{
+			cb("", 12000, 800000),
+			cb("outcomes=plain,res=fam.strs+fam.cks+fam.byname+fam.annotated", 6000, 400000),
+		},
+		Rule:   "each run plans 1-4 calls on 1-3 resources of the family (entities with maps in every position: map fields, maps of records, maps of maps, unions holding maps; finder / action parameter structs; batch key sets and batch entity maps of every key type) and serializes each call 3-7 times end to end (request line, query, headers, body; response headers and body): once with canonical map order and then with every range-over-map site iterating in a drawn permutation and batch keys supplied in a drawn order. Distinct by (resource, method).",
+		Assume: append([]string{"byte identity across OS processes with different runtime hash seeds follows from permutation invariance at every instrumented site; sites the instrumenter could not rewrite are listed in the evidence (none today)", "root-module code is out of scope (C09 is a v2 property)"}, s4Assume...),
+	})
+}
+
 func joinNonEmpty(s ...string) string {
 	var o []string
 	for _, x := range s {
